@@ -377,8 +377,10 @@ def compare_variant(ctx, source, vname, base, var, id_labels=False, text=None, i
                                                         "original": a, "variant_sign": b}, text))
     for lab in d0.labels:
         k = lab["key"]
-        if not L.distinct_distances(d0, lab) or k in d0.dup_keys:
-            continue      # (a key drawn twice: which one is "the first" depends on the document order)
+        lab1 = next((x for x in d1.labels if x["key"] == k), None)
+        if not L.distinct_distances(d0, lab) or lab1 is None or not L.distinct_distances(d1, lab1) or k in d0.dup_keys:
+            continue      # (ties in either drawing are outside the property; a key drawn twice: which one is "the first"
+            #               depends on the document order)
         if p0.resolved.get(k) != p1.resolved.get(k):
             ctx.violation(f"C13:{kind}:label-resolves-differently",
                           f"{source} [{vname}]: label {k!r} resolves to {p1.resolved.get(k)} instead of {p0.resolved.get(k)}",
@@ -805,7 +807,9 @@ def run(ctx):
         f"checked per drawing with the exact predicate `orient` (threshold {L.EPS} on 6 x signed volume) on the returned floats",
         "C13: a dashed bond (Display='Dash') is read as a Ligand bond, Order='1.5' as Aromatic — the code's reading of the drawing",
         f"C13: fractional bond orders compared within {L.F_ORDER_TOL}; coordinates of two parses within {COORD_TOL}",
-        "C13: label resolution compared only when no two fragments are equidistant (L1) from the label (KD-tree tie order is unspecified)",
+        "C13: label resolution is compared only when it is decided with a margin of 1e-6 page units: no two fragments (nearly) equidistant "
+        "(L1) from the label and no fragment centre at (nearly) the label's height — ties are decided by the rounding of the decimal text "
+        "and are outside the property",
     ]
     ctx.proof(props=["Molli.Props.C13"], gen=["CdxmlConsts"])
     work = ctx.scratch
